@@ -1275,6 +1275,9 @@ impl Handler {
             // the request that was used to re-establish the session handshake.
             self.replay_active_requests(&node_address, message_nonce)
                 .await;
+            // Requests may have been queued behind the challenge that has just been answered.
+            // Release them, otherwise they are never sent and never reported as failed.
+            self.send_pending_requests(&node_address).await;
         } else {
             self.sessions.insert(node_address.clone(), session);
             METRICS
